@@ -24,6 +24,15 @@ func Root() string {
 	return "/verif"
 }
 
+// OutRoot is where evidence/ and replays/ are written (VERIF_OUT; default Root()). The self-test points it elsewhere
+// so that runs against mutated scratch trees never overwrite the evidence of /repo.
+func OutRoot() string {
+	if r := os.Getenv("VERIF_OUT"); r != "" {
+		return r
+	}
+	return Root()
+}
+
 type shardOutcome struct {
 	aggs     []*Agg
 	crashes  []Violation
@@ -280,7 +289,7 @@ func RunMain(id, tier string, seed int64) int {
 
 	// replay files
 	code := 0
-	rdir := filepath.Join(Root(), "replays", id)
+	rdir := filepath.Join(OutRoot(), "replays", id)
 	var lines []string
 	for i, v := range total.Violations {
 		if i >= maxViolationsKept {
@@ -352,9 +361,9 @@ func RunMain(id, tier string, seed int64) int {
 		"violations":  total.TotalViol,
 		"verdict":     map[bool]string{true: "violated", false: map[bool]string{true: "inconclusive", false: "held on what was observed"}[inconclusive != ""]}[code == 1],
 	}
-	os.MkdirAll(filepath.Join(Root(), "evidence"), 0o755)
+	os.MkdirAll(filepath.Join(OutRoot(), "evidence"), 0o755)
 	eb, _ := json.MarshalIndent(ev, "", " ")
-	if err := os.WriteFile(filepath.Join(Root(), "evidence", id+".json"), append(eb, '\n'), 0o644); err != nil {
+	if err := os.WriteFile(filepath.Join(OutRoot(), "evidence", id+".json"), append(eb, '\n'), 0o644); err != nil {
 		fmt.Fprintln(os.Stderr, err)
 		return 64
 	}
